@@ -92,7 +92,9 @@ class Ref:
         p2, st2, kids = r
         if visible:
             return p2, st2, [(name, pos, p2, None, tuple(kids))]
-        return p2, st2, []
+        # an invisible rule (normal/@ under Atomic) adds no token of its own, but
+        # tokens queued by nested $ / ! rules stay in the queue
+        return p2, st2, kids
 
     def skip(self, pos, stack, atom, look):
         """hidden::skip - (WHITESPACE | COMMENT)* when non-atomic."""
